@@ -20,10 +20,7 @@ func (e *Engine) normEvent(role string, lr *lockResult, c ssa.CallInstruction) s
 		return ""
 	}
 	if k := lr.muCall(c); k != "" {
-		if _, isDefer := c.(*ssa.Defer); isDefer {
-			return "defer-" + strings.ToLower(k)
-		}
-		return strings.ToLower(k)
+		return "mutex" // how the mutex is released (defer or explicit) is an idiom, not behaviour
 	}
 	if c.Common().IsInvoke() {
 		m := c.Common().Method
@@ -47,6 +44,9 @@ func (e *Engine) normEvent(role string, lr *lockResult, c ssa.CallInstruction) s
 			return ""
 		}
 		name := g.Name()
+		if ff := e.field(role, "Client", "forceFailureErr"); ff != nil && failureGetter(g, ff) {
+			return "mutex" // locked read of the failure condition; the test itself is recorded as failure-test
+		}
 		if strings.HasPrefix(name, "map") && g.Signature.Results().Len() == 1 && len(g.Params) >= 1 {
 			// other mappers (inputs, descriptions): transparent, except the error mapper of v2
 			if isErrorType(g.Signature.Results().At(0).Type()) {
